@@ -19,6 +19,20 @@ static std::string fdesc(const ForRT &F)
     return o.str();
 }
 
+static std::string edgeText(const dd_edge &e)
+{
+    std::ostringstream o;
+    o << "<";
+    const edge_value &v = e.getEdgeValue();
+    if (v.isVoid()) o << "-";
+    else if (v.isLong()) o << long(v);
+    else if (v.isInt()) o << int(v);
+    else if (v.isFloat()) o << float(v);
+    else if (v.isDouble()) o << double(v);
+    o << ", node " << e.getNode() << ">";
+    return o.str();
+}
+
 void World::auditI1(bool all)
 {
     for (EdgeSlot* e : edges) {
@@ -47,7 +61,9 @@ void World::auditI2()
                     std::ostringstream o;
                     o << fdesc(F) << ": two held edges denote "
                       << (same ? "the same function but compare unequal"
-                               : "different functions but compare equal");
+                               : "different functions but compare equal")
+                      << " (" << en(*es[i]) << " = " << edgeText(*es[i]->e) << ", "
+                      << en(*es[j]) << " = " << edgeText(*es[j]->e) << ")";
                     failNow("I2", cur_family, o.str());
                     return;
                 }
